@@ -21,7 +21,9 @@ RULE = ("Hypothesis draws an invertible A = X diag(lam) X^-1 (real non-symmetric
         "step whatever the other columns look like, no column may end above its initial residual."
         " Further: normal operators with condition number 1e3 under tolerances 1e-3..1e-6, judged strictly where the"
         " tolerance provably cannot trigger; systems rescaled by 10^-2..10^6; complex guesses for all-real systems;"
-        " the caller's b and x0 must be unchanged; pbar=True.")
+        " the caller's b and x0 must be unchanged; pbar=True."
+        " Round 5: c I + N with c = 1e4 / 1e5; one inverse object whose 2-D right-hand-side buffer is refilled in"
+        " place between two products.")
 ASSUMPTIONS = [
     "tolerances >= 1e-6 are judged only where they cannot trigger: no sub-diagonal entry of the reference Arnoldi relation below 4 tol h21 (or 2 tol, cola's absolute clip) and no Hessenberg column below 40 tol max|H| (gmres masks columns below 10 tol max|H| as padding); otherwise the iterate only promises |r| <~ tol cond(A) |r0| and the case is counted inconclusive",
     "residuals compared at 1e-6 relative plus 1e3*eps*cond(X)*(|A||x|+|b|) plus 1e-6*|r0| (residuals below 1e-6 |r0| count as zero: iterations continued past a breakdown with tol near rounding level leave ~1e-9..1e-7 |r0|); matrices have cond(X) <= ~5 and |lam| in [0.5, 4]",
